@@ -6,6 +6,7 @@ MODULES = [
     ('src/lib.rs', 'verif_kani_endian', 'endian.rs'),
     ('src/volatile_memory.rs', 'verif_kani_vs', 'vs.rs'),
     ('src/volatile_memory.rs', 'verif_kani_c06', 'c06.rs'),
+    ('src/bitmap/backend/atomic_bitmap.rs', 'verif_kani_c08', 'c08.rs'),
 ]
 
 _ADDR_CTX = [r'macro_rules!\s+impl_address_ops', r'\(\$T:ident, \$V:ty\)\s*=>', r'impl Address for \$T']
